@@ -30,7 +30,8 @@ from .model import MTree, model_filter
 from .sched import Deadlock, Scheduler, StepCap, swap_locks
 from .world import HarnessError, InjectedFault, Violation, real_children
 
-READER_OPS = ("save", "copy", "filtered", "copy_to", "to_dict_list", "to_dotfile", "with_list")
+READER_OPS = ("save", "save_path", "copy", "filtered", "copy_to", "to_dict_list", "to_dotfile",
+              "with_list")
 
 
 # ------------------------------------------------------------------------------
@@ -82,7 +83,7 @@ def expected_of(op_kind: str, mclone: MTree, typed: bool):
         if not c:
             return ("EXC", "ValueError")  # documented: nothing to copy
         return canon_names(c)
-    if op_kind in ("copy", "save"):
+    if op_kind in ("copy", "save", "save_path"):
         return c
     if op_kind == "to_dict_list":
         return canon_names(c)
@@ -277,6 +278,18 @@ def c18_run(base_seed, index, tier, nt, *, forced=None, cfg_override=None,
                     raise InjectedFault("io") from None
                 raise
             return decode_saved(fp.getvalue(), typed)
+        if kind == "save_path":
+            from .ops_store import _scratch_dir
+
+            path = os.path.join(_scratch_dir(world), f"c18-{sched.current.name}.nutree")
+            try:
+                tree.save(path, mapper=ser)
+                return decode_saved(S.read_saved_text(path), typed)
+            finally:
+                try:
+                    os.unlink(path)
+                except OSError:
+                    pass
         if kind == "copy":
             return canon_real(tree.copy(), typed)
         if kind == "filtered":
@@ -384,7 +397,8 @@ def c18_run(base_seed, index, tier, nt, *, forced=None, cfg_override=None,
                 kind = rng.choice(cfg["reader_ops"])
                 fault = None
                 if cfg["p_fault"] and rng.random() < cfg["p_fault"]:
-                    cbs = {"save": ["mapper", "io"], "to_dict_list": ["mapper"],
+                    cbs = {"save": ["mapper", "io"], "save_path": ["mapper"],
+                           "to_dict_list": ["mapper"],
                            "filtered": ["pred"], "to_dotfile": ["io"]}.get(kind)
                     if cbs:
                         fault = (rng.choice(cbs), rng.randint(1, 4))
